@@ -76,6 +76,48 @@ pub fn raw_case(r: &mut Rep, x: u64, k: u32) {
     }
 }
 
+/// the alignment parameter is `impl Into<u64>`: every integer type that can hold the alignment gives the same result
+/// (value or panic) as u64
+pub fn narrow_case(r: &mut Rep, x: u64, k: u32) {
+    let case = format!("narrow {:#x} {}", x, k);
+    macro_rules! same {
+        ($ty:ty) => {{
+            let al = 1u64 << k;
+            if is_phys(x) {
+                let p = PhysAddr::new(x);
+                let a = (catch(|| p.align_up(al).as_u64()), catch(|| p.align_down(al).as_u64()), catch(|| p.is_aligned(al)));
+                let b = (catch(|| p.align_up(al as $ty).as_u64()), catch(|| p.align_down(al as $ty).as_u64()), catch(|| p.is_aligned(al as $ty)));
+                if a != b {
+                    r.viol(&format!("C06|PhysAddr::align/is_aligned<{}>|differs-from-the-u64-instantiation", stringify!($ty)), &case, &format!("{:x?} vs {:x?}", b, a));
+                }
+                if let Ok(v) = b.0 {
+                    if !is_phys(v) {
+                        r.viol(&format!("C06|PhysAddr::align_up<{}>|returns-an-invalid-address", stringify!($ty)), &case, &format!("{:#x}", v));
+                    }
+                }
+            }
+            if is_canon(x) {
+                let p = VirtAddr::new(x);
+                let a = (catch(|| p.align_up(al).as_u64()), catch(|| p.align_down(al).as_u64()), catch(|| p.is_aligned(al)));
+                let b = (catch(|| p.align_up(al as $ty).as_u64()), catch(|| p.align_down(al as $ty).as_u64()), catch(|| p.is_aligned(al as $ty)));
+                if a != b {
+                    r.viol(&format!("C06|VirtAddr::align/is_aligned<{}>|differs-from-the-u64-instantiation", stringify!($ty)), &case, &format!("{:x?} vs {:x?}", b, a));
+                }
+            }
+        }};
+    }
+    r.ev(true);
+    if k < 8 {
+        same!(u8);
+    }
+    if k < 16 {
+        same!(u16);
+    }
+    if k < 32 {
+        same!(u32);
+    }
+}
+
 pub fn nonpow_case(r: &mut Rep, al: u64) {
     r.ev(true);
     let case = format!("nonpow {:#x}", al);
@@ -179,6 +221,7 @@ pub fn run(a: &Args) {
         match t[0] {
             "raw" => raw_case(&mut r, h(t[1]), t[2].parse().unwrap()),
             "nonpow" => nonpow_case(&mut r, h(t[1])),
+            "narrow" => narrow_case(&mut r, h(t[1]), t[2].parse().unwrap()),
             "contain" => match t[1] {
                 "4KiB" => contain_case::<Size4KiB>(&mut r, h(t[2])),
                 "2MiB" => contain_case::<Size2MiB>(&mut r, h(t[2])),
@@ -197,6 +240,11 @@ pub fn run(a: &Args) {
         }
         for x in addr_set(k, &wide) {
             guarded(&mut r, "C06|align/is_aligned|unexpected-panic", || format!("raw {:#x} {}", x, k), |r| raw_case(r, x, k));
+        }
+        if k < 32 {
+            for x in addr_set(k, &None) {
+                guarded(&mut r, "C06|align/is_aligned|unexpected-panic", || format!("narrow {:#x} {}", x, k), |r| narrow_case(r, x, k));
+            }
         }
     }
     // non powers of two
